@@ -64,7 +64,7 @@ func TestC29(t *testing.T) {
 	r := mc.NewRun(t, "C29", mc.Exploration)
 	r.Rule = "topology family (netsim.CombFamily, real beaconing along all loop-free walks) x segment-set variants (one generation; two generations in " +
 		"both supply orders; newer generation expiring earlier through one AS; older generation lacking the last peering link; segments of all ASes " +
-		"supplied; detachable EPIC extension on all ASes / every second AS / each single AS / one of two generations) x all ordered AS pairs x supplied subsets (everything; without cores; every single up / single down / (up,down) pair with all, " +
+		"supplied; detachable EPIC extension on all ASes / every second AS / each single AS / one of two generations; static-info + discovery extensions on all / every second AS, also together with EPIC) x all ordered AS pairs x supplied subsets (everything; without cores; every single up / single down / (up,down) pair with all, " +
 		"none and each single core segment) x findAllIdentical {false,true} x every join found by the clean-room enumerator; distinct key = " +
 		"variant + pair + subset + mode + join (segments, cut points, peering entry); non-trivial = joins that are not excluded as loops"
 	thorough := mc.Thorough()
@@ -76,7 +76,7 @@ func TestC29(t *testing.T) {
 		for ti, tp := range topos {
 			for _, v := range c28Variants(tp, thorough) {
 				// MTU-only perturbations do not change which joins exist
-				if !(strings.HasPrefix(v.Name, "base") || strings.HasPrefix(v.Name, "2gen") || strings.HasPrefix(v.Name, "epic")) {
+				if !(strings.HasPrefix(v.Name, "base") || strings.HasPrefix(v.Name, "2gen") || strings.HasPrefix(v.Name, "epic") || strings.HasPrefix(v.Name, "ext")) {
 					continue
 				}
 				if r.OutOfBudget() {
@@ -92,7 +92,7 @@ func TestC29(t *testing.T) {
 				nSets++
 				// subsets are enumerated on one-generation sets and on the plain two-generation sets; the remaining variants
 				// are checked with everything supplied
-				subsets := v.Name == "base" || v.Name == "2gen/old-first" || v.Name == "2gen/old-lacks-last-peering-link" || v.Name == "epic:all"
+				subsets := v.Name == "base" || v.Name == "2gen/old-first" || v.Name == "2gen/old-lacks-last-peering-link" || v.Name == "epic:all" || v.Name == "ext:all+epic:all"
 				for src := range tp.ASes {
 					for dst := range tp.ASes {
 						if src == dst {
